@@ -93,33 +93,34 @@ Qed.
 Lemma nthN_In : forall (A : Type) (l : list A) i d, nthN l i = Some d -> In d l.
 Proof. intros A l i d H. rewrite nthN_nth_error in H. apply (nth_error_In _ _ H). Qed.
 
-(* whatever the links: an entry that has_directory finds carries the name and is in the array *)
+(* whatever the links: an entry that has_directory finds carries the name — up to case, CFB-1 — and
+   is in the array *)
 Lemma has_directory_sound : forall dirs name,
-  PasswordCfb.has_directory dirs name = true -> exists d, In d dirs /\ d_name d = name.
+  PasswordCfb.has_directory dirs name = true -> exists d, In d dirs /\ name_equiv (d_name d) name.
 Proof.
   intros dirs name H. unfold PasswordCfb.has_directory in H.
   destruct (find_entry dirs [name]) as [d|] eqn:E; [|discriminate]. clear H. unfold find_entry in E.
   destruct (children dirs 0) as [|x xs] eqn:Ec.
   - cbn [last_opt] in E. unfold find_dir in E. apply find_some in E.
-    exists d. split; [exact (proj1 E)|apply list_eqb_eq; exact (proj2 E)].
+    exists d. split; [exact (proj1 E)|apply name_eqb_equiv; exact (proj2 E)].
   - cbn [find_from] in E. rewrite Ec in E. destruct (find (name_is dirs name) (x :: xs)) as [i|] eqn:Ef; [|discriminate].
     apply find_some in Ef. destruct Ef as [_ Ef]. unfold name_is in Ef. rewrite E in Ef.
-    exists d. split; [apply (@nthN_In _ _ _ _ E)|apply list_eqb_eq; exact Ef].
+    exists d. split; [apply (@nthN_In _ _ _ _ E)|apply name_eqb_equiv; exact Ef].
 Qed.
 
 (* no hierarchy in the array (the root entry links to no child): any entry of that name *)
 Lemma has_directory_flat_iff : forall dirs name, children dirs 0 = [] ->
-  (PasswordCfb.has_directory dirs name = true <-> exists d, In d dirs /\ d_name d = name).
+  (PasswordCfb.has_directory dirs name = true <-> exists d, In d dirs /\ name_equiv (d_name d) name).
 Proof.
   intros dirs name Hc. split; [apply has_directory_sound|]. intros (d & Hin & Hn).
   unfold PasswordCfb.has_directory. rewrite find_entry_flat by exact Hc. cbn [last_opt]. unfold find_dir.
-  destruct (find (fun d => list_eqb (d_name d) name) dirs) as [d'|] eqn:E; [reflexivity|].
-  pose proof (find_none _ _ E d Hin) as H. cbn beta in H. rewrite Hn, list_eqb_refl in H. discriminate.
+  destruct (find (fun d => name_eqb (d_name d) name) dirs) as [d'|] eqn:E; [reflexivity|].
+  pose proof (find_none _ _ E d Hin) as H. cbn beta in H. apply name_eqb_equiv in Hn. rewrite Hn in H. discriminate.
 Qed.
 
 (* a hierarchy: an entry of that name among those the root entry's sibling tree links to *)
 Lemma has_directory_child : forall dirs name i d,
-  In i (children dirs 0) -> nthN dirs i = Some d -> d_name d = name ->
+  In i (children dirs 0) -> nthN dirs i = Some d -> name_equiv (d_name d) name ->
   PasswordCfb.has_directory dirs name = true.
 Proof.
   intros dirs name i d Hi Hd Hn. unfold PasswordCfb.has_directory, find_entry.
@@ -127,7 +128,7 @@ Proof.
   destruct (find (name_is dirs name) (x :: xs)) as [j|] eqn:E.
   - apply find_some in E. destruct E as [Hj _]. rewrite <- Ec in Hj.
     destruct (@children_in_range dirs 0 j Hj) as [dj Hdj]. rewrite Hdj. reflexivity.
-  - pose proof (find_none _ _ E i Hi) as H. unfold name_is in H. rewrite Hd, Hn, list_eqb_refl in H. discriminate.
+  - pose proof (find_none _ _ E i Hi) as H. unfold name_is in H. apply name_eqb_equiv in Hn. rewrite Hd, Hn in H. discriminate.
 Qed.
 
 (* MAIN (ooxml, positive, over a parsed directory without hierarchy — what every lookup was before
@@ -135,7 +136,7 @@ Qed.
    the check answer Password; the zip is never opened *)
 Theorem encrypted_package_is_password : forall before d after_ zip,
   children (before ++ d :: after_) 0 = [] ->
-  d_name d = ENCRYPTED_PACKAGE ->
+  name_equiv (d_name d) ENCRYPTED_PACKAGE ->
   ooxml_check (Ok (before ++ d :: after_)) = Err E_PASSWORD /\
   ooxml_new (Ok (before ++ d :: after_)) zip = Err E_PASSWORD.
 Proof.
@@ -149,7 +150,7 @@ Qed.
 (* MAIN (ooxml, positive, over a parsed directory with a hierarchy): an entry named
    EncryptedPackage that the root storage holds — at any index of the array *)
 Theorem encrypted_package_of_root_is_password : forall dirs i d zip,
-  In i (children dirs 0) -> nthN dirs i = Some d -> d_name d = ENCRYPTED_PACKAGE ->
+  In i (children dirs 0) -> nthN dirs i = Some d -> name_equiv (d_name d) ENCRYPTED_PACKAGE ->
   ooxml_check (Ok dirs) = Err E_PASSWORD /\ ooxml_new (Ok dirs) zip = Err E_PASSWORD.
 Proof.
   intros dirs i d zip Hi Hd Hn. pose proof (@has_directory_child dirs ENCRYPTED_PACKAGE i d Hi Hd Hn) as H.
@@ -157,7 +158,7 @@ Proof.
 Qed.
 
 Theorem no_encrypted_package_not_password : forall cfb,
-  (forall dirs, cfb = Ok dirs -> forall d, In d dirs -> d_name d <> ENCRYPTED_PACKAGE) ->
+  (forall dirs, cfb = Ok dirs -> forall d, In d dirs -> ~ name_equiv (d_name d) ENCRYPTED_PACKAGE) ->
   ooxml_check cfb <> Err E_PASSWORD.
 Proof.
   intros cfb H. unfold ooxml_check. destruct cfb as [dirs|e| |]; try discriminate.
@@ -350,8 +351,8 @@ Proof.
   intros Hreach.
   assert (Hhas : PasswordCfb.has_directory (d0 :: ds0) ENCRYPTED_PACKAGE = true).
   { destruct Hreach as [Hflat|Hchild].
-    - apply (@has_directory_flat_iff (d0 :: ds0) ENCRYPTED_PACKAGE Hflat). exists dep. split; [exact Hin|exact Hname].
-    - apply (@has_directory_child (d0 :: ds0) ENCRYPTED_PACKAGE (N.of_nat (length before)) dep Hchild); [|exact Hname].
+    - apply (@has_directory_flat_iff (d0 :: ds0) ENCRYPTED_PACKAGE Hflat). exists dep. split; [exact Hin|rewrite Hname; reflexivity].
+    - apply (@has_directory_child (d0 :: ds0) ENCRYPTED_PACKAGE (N.of_nat (length before)) dep Hchild); [|rewrite Hname; reflexivity].
       rewrite nthN_nth_error, Nat2N.id. exact Hd. }
   unfold ooxml_new, ooxml_check. rewrite Hhas. split; reflexivity.
 Qed.
@@ -364,7 +365,7 @@ Qed.
    padding) whose links are a tree over the hierarchy (any shape), the check on the written
    bytes answers Password.  Composition with C13_has_directory_root. *)
 Lemma ep_plain : plain ENCRYPTED_PACKAGE.
-Proof. split; discriminate. Qed.
+Proof. split; [discriminate|intros H; vm_compute in H; discriminate]. Qed.
 
 Theorem encrypted_ooxml_is_password_any_layout : forall c l fuel zip,
   valid_layout c l -> linked_tree c l -> (fuel_for l <= fuel)%nat ->
@@ -395,13 +396,13 @@ Qed.
    anywhere in the container *)
 Theorem encrypted_ooxml_is_password_any_layout_flat : forall c l fuel zip,
   valid_layout c l -> flat_root c l -> (fuel_for l <= fuel)%nat ->
-  In ENCRYPTED_PACKAGE (all_names c) ->
+  mem_name ENCRYPTED_PACKAGE (all_names c) = true ->
   ooxml_check_bytes fuel (cfb_write c l) = Err E_PASSWORD /\
   ooxml_new_bytes fuel (cfb_write c l) zip = Err E_PASSWORD.
 Proof.
   intros c l fuel zip Hv Hfl Hf Hin.
   destruct (@has_directory_flat c l fuel Hv Hfl Hf) as (cf & r & Hnew & _ & Hhas).
-  pose proof (proj2 (Hhas _ ep_plain) Hin) as H. rewrite has_directory_is_cfb in H.
+  pose proof (Hhas _ ep_plain) as H. rewrite Hin, has_directory_is_cfb in H.
   unfold ooxml_new_bytes, ooxml_check_bytes, ooxml_new, ooxml_check, cfb_dirs.
   rewrite Hnew. cbn [obind fst]. rewrite H. split; reflexivity.
 Qed.
@@ -422,7 +423,7 @@ Qed.
    to the xlsx reader, say); the reader goes on to the zip *)
 Theorem no_encrypted_package_any_layout : forall c l fuel zip,
   valid_layout c l -> (fuel_for l <= fuel)%nat ->
-  ~ In ENCRYPTED_PACKAGE (all_names c) ->
+  mem_name ENCRYPTED_PACKAGE (all_names c) = false ->
   ooxml_check_bytes fuel (cfb_write c l) = Ok tt /\
   ooxml_new_bytes fuel (cfb_write c l) zip = zip.
 Proof.
@@ -433,8 +434,12 @@ Proof.
   destruct (PasswordCfb.has_directory (parsed_dirs c l) ENCRYPTED_PACKAGE) eqn:E;
     [|split; reflexivity].
   exfalso. apply has_directory_sound in E. destruct E as (d & Hin & Hd).
-  destruct (parsed_dirs_names c l d Hv Hin) as [H|[H|H]]; rewrite Hd in H;
-    [discriminate|discriminate|exact (Hnot H)].
+  destruct (parsed_dirs_names c l d Hv Hin) as [H|[H|H]].
+  - rewrite H in Hd. vm_compute in Hd. discriminate.
+  - rewrite H in Hd. vm_compute in Hd. discriminate.
+  - assert (M : mem_name ENCRYPTED_PACKAGE (all_names c) = true)
+      by (apply mem_name_spec; exists (d_name d); split; [exact H|exact Hd]).
+    rewrite M in Hnot. discriminate.
 Qed.
 
 (* MAIN (ooxml, "only then", BYTES): an object named EncryptedPackage that only an EMBEDDED object
